@@ -746,10 +746,40 @@ type structEntry struct {
 	fields []string // name, wire value, ...
 }
 
+// sibling embedded structs that promote the same field name: Go's selector takes the SHALLOWEST one (SRow.ID at depth
+// 1 wins over SMeta.sAudit.ID at depth 2, whatever the declaration order), and a tie at one depth is no field at all
+type sAudit struct{ ID string }
+type SMeta struct {
+	sAudit
+	Rev int
+}
+type SRow struct {
+	ID  int
+	Qty int
+}
+type SDepth struct {
+	SMeta
+	SRow
+	Name string
+}
+type SAmbigA struct {
+	X     int
+	OnlyA int
+}
+type SAmbigB struct {
+	X     string
+	OnlyB int
+}
+type SAmbig struct {
+	SAmbigA
+	SAmbigB
+	Y int
+}
+
 var structPalette []structEntry
 
 var structTypes = []reflect.Type{reflect.TypeOf(SBase{}), reflect.TypeOf(SInner{}), reflect.TypeOf(SAcct{}), reflect.TypeOf(SPtrEmb{}), reflect.TypeOf(SShadow{}), reflect.TypeOf(SDeep{}),
-	reflect.TypeOf(STagged{}), reflect.TypeOf(rowA()), reflect.TypeOf(rowB())}
+	reflect.TypeOf(STagged{}), reflect.TypeOf(rowA()), reflect.TypeOf(rowB()), reflect.TypeOf(SDepth{}), reflect.TypeOf(SMeta{}), reflect.TypeOf(SRow{}), reflect.TypeOf(SAmbig{}), reflect.TypeOf(SAmbigA{}), reflect.TypeOf(SAmbigB{})}
 
 func structTypeID(t reflect.Type) int {
 	for i, x := range structTypes {
@@ -817,6 +847,20 @@ func init() {
 			}
 		}
 	}
+	// 14: SDepth (ID is SRow's), 15: its SMeta (ID promoted from the unexported sAudit), 16: its SRow; 17: SAmbig (X is
+	// ambiguous: absent), 18, 19: its parts
+	dp := SDepth{SMeta: SMeta{sAudit: sAudit{ID: "audit-17"}, Rev: 3}, SRow: SRow{ID: 7, Qty: 2}, Name: "dp"}
+	structPalette = append(structPalette, structEntry{dp, []string{"ID", "Ii:7", "Qty", "Ii:2", "Rev", "Ii:3", "Name", str("dp"), "SMeta", "", "SRow", ""}})
+	structPalette = append(structPalette, structEntry{dp.SMeta, []string{"ID", str("audit-17"), "Rev", "Ii:3"}})
+	structPalette = append(structPalette, structEntry{dp.SRow, []string{"ID", "Ii:7", "Qty", "Ii:2"}})
+	amb := SAmbig{SAmbigA: SAmbigA{X: 1, OnlyA: 10}, SAmbigB: SAmbigB{X: "b", OnlyB: 20}, Y: 5}
+	structPalette = append(structPalette, structEntry{amb, []string{"OnlyA", "Ii:10", "OnlyB", "Ii:20", "Y", "Ii:5", "SAmbigA", "", "SAmbigB", ""}})
+	structPalette = append(structPalette, structEntry{amb.SAmbigA, []string{"X", "Ii:1", "OnlyA", "Ii:10"}})
+	structPalette = append(structPalette, structEntry{amb.SAmbigB, []string{"X", str("b"), "OnlyB", "Ii:20"}})
+	fix(14, "SMeta", 15)
+	fix(14, "SRow", 16)
+	fix(17, "SAmbigA", 18)
+	fix(17, "SAmbigB", 19)
 	fix(2, "SBase", 3)
 	fix(2, "Nested", 4)
 	fix(7, "SBase", 8)
